@@ -217,7 +217,18 @@ impl World {
     fn n_locations(&self, h: &RH, m: &Mutation) -> usize {
         self.keys.iter().map(|k| self.locations.get(&(*k, keyed(h, k, m))).copied().unwrap_or(0)).sum()
     }
+    /// some different recorded hash shares the keyed 64-bit prefix of `h` *inside a key domain in which `h` is
+    /// stored* ("last writer wins" can then legitimately hide it).  A colliding prefix in another key domain is
+    /// no excuse for a miss: the manager verifies the full hash and must go on to the next collection.
+    fn prefix_shared_where_stored(&self, h: &RH, m: &Mutation) -> bool {
+        self.keys.iter().any(|k| {
+            let kh = keyed(h, k, m);
+            self.locations.get(&(*k, kh)).copied().unwrap_or(0) > 0
+                && self.by_prefix.get(&(*k, prefix(&kh))).map(|s| s.iter().any(|o| *o != kh)).unwrap_or(false)
+        })
+    }
     /// some different recorded hash shares the (keyed) 64-bit prefix of `h` in some key domain
+    #[allow(dead_code)]
     fn prefix_shared(&self, h: &RH, m: &Mutation) -> bool {
         self.keys.iter().any(|k| {
             let kh = keyed(h, k, m);
@@ -1817,12 +1828,15 @@ fn compare_managers(ctx: &Ctx, dir_o: &Path, dir_e: &Path, w: &World, equal_fami
         } else {
             out.count("answers_checked_for_truthfulness_only", 1);
             // a hash stored at exactly one place, whose prefix nothing else shares, is found
-            if w.n_locations(&q.hs[0], m) == 1 && !w.prefix_shared(&q.hs[0], m) {
+            if w.n_locations(&q.hs[0], m) == 1 && !w.prefix_shared_where_stored(&q.hs[0], m) {
                 out.count("vac:unique_hash_lookups", 1);
+                if w.prefix_shared(&q.hs[0], m) {
+                    out.count("vac:unique_hash_lookups_past_a_colliding_prefix_in_another_key_domain", 1);
+                }
                 if !matches!(e, Ok(Some(_))) {
                     let mut r = replay.clone();
                     r["query"] = json!(q.label);
-                    out.violation("C18/keyed-lookup-misses-unique-chunk", format!("query {} on {desc}: first hash is stored exactly once and shares its prefix with nothing, yet the manager over the exports answers {}", q.label, obs_str(e)), r);
+                    out.violation("C18/keyed-lookup-misses-unique-chunk", format!("query {} on {desc}: first hash is stored exactly once and nothing shares its prefix in the key domain that stores it, yet the manager over the exports answers {}", q.label, obs_str(e)), r);
                 }
             }
         }
